@@ -3017,6 +3017,22 @@ class MOFCompiler:
             # Generate the error message into log and reraise error
             self.parser.log(pe.get_err_msg())
             raise
+        except (ValueError, TypeError) as exc:
+            # A value in the MOF is invalid for its CIM type; this is detected
+            # by the CIM object classes used in the parser actions. Report it
+            # as a parse error at the current position of the lexer.
+            tok = lex.LexToken()
+            tok.type = 'error'
+            tok.value = ''
+            tok.lineno = lexer.lineno
+            tok.lexpos = max(min(lexer.lexpos, len(mof) - 1), 0)
+            tok.lexer = lexer
+            pe = MOFParseError(
+                msg=_format("Invalid value in MOF: {0}", exc),
+                parser_token=tok)
+            pe.__cause__ = None
+            self.parser.log(pe.get_err_msg())
+            raise pe
 
     def compile_file(self, filename, ns):
         """
